@@ -86,7 +86,7 @@ class Gen:
 
     def expr(self, d=0, allow_jsx=True):
         choices = [("ident", 5), ("lit", 3), ("call", 3), ("member", 3), ("arrow", 1), ("object", 2),
-                   ("array", 2), ("cond", 1), ("binary", 1), ("template", 1), ("const", 2)]
+                   ("array", 2), ("cond", 1), ("binary", 1), ("template", 1), ("const", 2), ("odd", 2)]
         if allow_jsx and d < self.depth_limit and self.p.get("jsx_in_expr", 1):
             choices.append(("jsx", 2))
         k = self.r.wpick(choices)
@@ -97,6 +97,13 @@ class Gen:
         if k == "const":
             return self.const_expr()
         self.u("expr:" + k)
+        if k == "odd":
+            # syntactic variety the visitor has no special case for (and wrappers it may or may not look through)
+            e = self.expr(d + 1, allow_jsx) if d < 2 else self.ident()
+            return self.r.pick(["(%s)" % e, "(0, %s)" % e, "obj?.a", "list[0]", "new Foo(%s)" % e, "tag`t${%s}`" % e, "typeof %s" % e, "!%s" % e,
+                                "%s ?? %s" % (self.ident(), e), "[...list, %s]" % e, "{...obj, a: %s}" % e, "{[x]: %s}" % e, "{ m() { return %s; } }" % e,
+                                "{ get g() { return 1; } }", "function () { return %s; }" % e, "class {}", "/re/g", "void 0", "this", "-1", "x && %s" % e,
+                                "obj.a.b.c", "f()()", "f?.()", "import.meta", "async () => %s" % e, "function* () {}", "`a${%s}b${val}`" % e])
         if k == "call":
             return "%s(%s)" % (self.r.pick(["f", "fn1", "obj.m", "x.y"]), ", ".join(self.expr(d + 1, allow_jsx) for _ in range(self.r.below(2))))
         if k == "member":
@@ -156,7 +163,7 @@ class Gen:
         if k == "string":
             return '="%s"' % self.r.pick(["a", "b c", "", "x-y"])
         if k == "string-ws":
-            return '="%s"' % self.r.pick([" a ", "a\n   b", "  ", "a\tb", "t "])
+            return '="%s"' % self.r.pick([" a ", "a\n   b", "  ", "a\tb", "t ", "a\rb", "\u00a0", "a \u00a0\n b", "\t", "a\r\n  b", "&nbsp;x", "a&#10;b"])
         if k == "none":
             return ""
         if k == "expr":
@@ -218,7 +225,8 @@ class Gen:
     # ---------- children ----------
     def text(self):
         self.u("child:text")
-        return self.r.pick(["hello", " hi ", "a b", "\n  line\n", "  \n  ", "t ", " t", "a\n\n b", "x&nbsp;", "&lt;", "a\tb"])
+        return self.r.pick(["hello", " hi ", "a b", "\n  line\n", "  \n  ", "t ", " t", "a\n\n b", "x&nbsp;", "&lt;", "a\tb", "\n  &nbsp;\n", "\u00a0", "\n\u3000\n", "a\rb",
+                            "&#32;x", "\u2003\n y", "é", "\n\t\n"])
 
     def child(self, d):
         w = self.p.get("children", {"text": 4, "expr": 4, "ident": 3, "call": 2, "empty": 1, "comment": 1, "spread": 1,
